@@ -19,7 +19,7 @@ RULE = (
 REQUIRED = ["all_checked", "comp_checked", "bt_checked", "max_results_checked", "threshold_checked",
             "prefilter_checked", "multi_component_patterns", "host_fewer_components", "bt_fallback_used",
             "strict_guard_checked", "hcount_discriminates", "selfcheck_bruteforce_vs_permutations",
-            "big_count_threshold_checked", "molecule_plus_lone_atoms_hosts"]
+            "big_count_threshold_checked", "molecule_plus_lone_atoms_hosts", "ring_and_chain_hosts", "patterns_with_self_loops"]
 ASSUMPTIONS = [
     "COMPONENT/BACKTRACK with max_results=k: exactly min(k, n) members of the strategy's own unlimited set (which members is not prescribed)",
     "threshold t: [] required when the unlimited result has more than t maps, the full set required when every internal count is <= t, either accepted in between",
@@ -258,6 +258,44 @@ def check_small_component_hosts(ctx):
                 check_pair(ctx, H, Ps, "multi-atom pattern components x hosts with lone atoms", ("lone", pi, mi, lone), light=(k % 3 != 0))
 
 
+def check_ring_and_chain_hosts(ctx):
+    """hosts made of a small ring and a longer open chain (fewer atoms but at least as many bonds in the ring), patterns of
+    4-5 atoms incl. 'ring + separate bonded pair'; and graphs with self-loops (degree counts a loop twice)."""
+    rng = ctx.rng
+    def ring(n, first=1, el="C"):
+        return [(first + i, first + (i + 1) % n, 1) for i in range(n)]
+    def chain(n, first=1):
+        return [(first + i, first + i + 1, 1) for i in range(n - 1)]
+    hosts = [atoms_graph("C" * 7, ring(3) + chain(4, 4)), atoms_graph("C" * 9, ring(4) + chain(5, 5)), atoms_graph("C" * 8, ring(3) + chain(4, 4) + []),
+             atoms_graph("CCCCCCCO", ring(3) + chain(4, 4)), atoms_graph("C" * 6, ring(3) + [(3, 4, 1), (4, 5, 1)]),      # ring with pendant ethyl + lone atom
+             atoms_graph("C" * 7, ring(3) + [(3, 4, 1), (4, 5, 1)] + [(6, 7, 1)]), atoms_graph("C" * 8, ring(4) + chain(4, 5))]
+    pats = [atoms_graph("CCCC", chain(4)), atoms_graph("CCCCC", chain(5)), atoms_graph("CCCCCC", chain(4) + [(5, 6, 1)]),
+            atoms_graph("CCCCC", ring(3) + [(4, 5, 1)]), atoms_graph("CCCCCC", ring(4) + [(5, 6, 1)]), atoms_graph("CCC", ring(3))]
+    k = 0
+    for hi, Hh in enumerate(hosts):
+        for pi, P in enumerate(pats):
+            for rep in range(2):
+                k += 1
+                if not ctx.mine(k):
+                    continue
+                H2, _ = WG.scramble(Hh, rng)
+                P2, _ = WG.scramble(P, rng)
+                ctx.count("ring_and_chain_hosts")
+                check_pair(ctx, H2, P2, "ring + chain hosts x 4-6 atom patterns", ("ringchain", hi, pi, rep), light=(rep == 1))
+    for t in range(30 if ctx.quick else 600):
+        if not ctx.mine(t):
+            continue
+        Hh = WG.random_mol(rng, rng.randint(3, 7), components=rng.choice([1, 1, 2]))
+        for n in list(Hh.nodes):
+            if rng.random() < 0.2:
+                Hh.add_edge(n, n, order=1.0, standard_order=0.0)
+        P = WG.planted_pattern(rng, Hh, rng.randint(1, 3))
+        P, _ = WG.scramble(P, rng)
+        if any(P.has_edge(n, n) for n in P.nodes):
+            ctx.count("patterns_with_self_loops")
+        check_pair(ctx, Hh, P, "graphs with self-loops", ("loops", t), light=False)
+
+
 def selfcheck(ctx):
     """the back-tracking oracle itself vs a permutation-based enumeration on tiny pairs."""
     rng = ctx.rng
@@ -274,6 +312,7 @@ def run(ctx):
     rng = ctx.rng
     selfcheck(ctx)
     check_small_component_hosts(ctx)
+    check_ring_and_chain_hosts(ctx)
     check_big_counts(ctx)
     hosts, pats = [], []
     hmax = 3 if ctx.quick else 4
